@@ -70,3 +70,7 @@ pub use terminal::{
 
 /// System specific terminal
 pub type SystemTerminal = unix::UnixTerminal;
+
+/// Verification hooks of the (private) unix module
+#[cfg(feature = "verif-hooks")]
+pub use unix::verif as unix_verif;
